@@ -167,6 +167,7 @@ def main():
         "hand-written model coq/Dec/Post.v tied by correspondence (tables after parse(), incl. copied and conjugated ones)"])
     cases = json.loads(Path(args.replay).read_text())["cases"] if args.replay else gen_cases(ck.rng, args.tier)
     impl = vlib.run_impl("c05.py", cases)
+    decpost.front_end_check(ck, "C05fe", cases)
     terms = [f"vpost (parse_post cc sc_of true {decpost.coq_stmts(c['stmts'])})" for c in cases]
     pre = "Definition sc_of (n : string) : option bool := pd_get n (t_selfconj gen_tables)."
     model = vlib.run_model("C05", ["Lib.PyDict", "Decay.Conj", "Decay.GenTables", "Dec.Tables", "Dec.Syntax", "Dec.Post"],
